@@ -22,8 +22,9 @@ def is_inner(t):
 
 
 def arm_of(p):
+    """The payload kind this path serves: the variant a (positive) match on self.inner selected."""
     for c in p.conds:
-        if c[0] == "match" and is_inner(c[1]):
+        if c[0] == "match" and is_inner(c[1]) and not str(c[2]).startswith("!") and c[3] is not False:
             return c[2].split("::")[-1].split("(")[0]
     return None
 
